@@ -226,8 +226,36 @@ def _listing_exclusions(f):
           neg = isinstance(t, ast.UnaryOp) and isinstance(t.op, ast.Not)
           call = t.operand if neg else t
           if isinstance(call, ast.Call) and astu.call_tail(call) == 'match' and call.args:
-            (exc if neg else inc).append(astu.src(call.args[0]))
+            (exc if neg else inc).append(_pattern(f.mod, call.args[0]))
   return inc, exc
+
+
+def _pattern(mod, node):
+  """Source text of a glob pattern with module-level string constants spelled out, so that f'{prefix}tmp' and
+  f'{prefix}{_TMP_NAME}' (with _TMP_NAME = 'tmp') read the same."""
+  if isinstance(node, ast.JoinedStr):
+    out = []
+    for v in node.values:
+      if isinstance(v, ast.Constant):
+        out.append(str(v.value))
+      elif isinstance(v, ast.FormattedValue):
+        d = mod.assigns.get(v.value.id) if isinstance(v.value, ast.Name) else None
+        if isinstance(d, ast.Constant) and isinstance(d.value, str) and v.format_spec is None:
+          out.append(d.value)
+        else:
+          out.append('{%s}' % astu.src(v.value))
+    return "f'%s'" % ''.join(out)
+  if isinstance(node, ast.Name):
+    d = mod.assigns.get(node.id)
+    if isinstance(d, ast.Constant) and isinstance(d.value, str):
+      return "f'%s'" % d.value
+  if isinstance(node, ast.Constant) and isinstance(node.value, str):
+    return "f'%s'" % node.value
+  return astu.src(node)
+
+
+def _want(mod, text):
+  return _pattern(mod, ast.parse(text, mode='eval').body)
 
 
 @rule('C11.R6', 'K4', 5, 'in-flight names are invisible to every listing that feeds a latest/retention/ordering decision')
@@ -237,19 +265,19 @@ def r6(R, repo):
   inc, exc = _listing_exclusions(allc)
   want = {"f'{prefix}tmp'": 'legacy temp file', "f'*{MP_ARRAY_POSTFIX}'": 'multi-process array directory', "f'*{ocp.utils.TMP_DIR_SUFFIX}*'": 'Orbax temp directory'}
   for pat, what in want.items():
-    R.judge(len(exc) >= 1 and len(inc) >= 1, pat in exc, key_of(allc, 'excludes %s' % pat), allc, '_all_checkpoints must hide the %s (%s): latest_checkpoint/restore would otherwise return a partial checkpoint' % (what, pat))
-  R.judge(len(inc) == 1, inc == ["f'{prefix}*'"], key_of(allc, 'lists <prefix>*'), allc, '_all_checkpoints must list exactly the names starting with the prefix')
+    R.judge(len(exc) >= 1 and len(inc) >= 1, _want(mod, pat) in exc, key_of(allc, 'excludes %s' % pat), allc, '_all_checkpoints must hide the %s (%s): latest_checkpoint/restore would otherwise return a partial checkpoint' % (what, pat))
+  R.judge(len(inc) == 1, inc == [_want(mod, "f'{prefix}*'")], key_of(allc, 'lists <prefix>*'), allc, '_all_checkpoints must list exactly the names starting with the prefix')
   rm = mod.func('_remove_invalid_ckpts')
   inc, exc = _listing_exclusions(rm)
   # retention deletes and counts: it must not see in-flight directories that can exist when it runs
   for pat in ("f'*{MP_ARRAY_POSTFIX}'", "f'*{ocp.utils.TMP_DIR_SUFFIX}*'"):
-    R.judge(len(exc) >= 1 and len(inc) >= 1, pat in exc, key_of(rm, 'retention listing excludes %s' % pat), rm,
+    R.judge(len(exc) >= 1 and len(inc) >= 1, _want(mod, pat) in exc, key_of(rm, 'retention listing excludes %s' % pat), rm,
             'the retention listing counts and sorts entries matching %s as checkpoints: a leftover in-flight directory pushes a complete checkpoint out of the `keep` newest '
             'and gets real checkpoints deleted' % pat)
   ce = mod.func('_check_overwrite_error')
   inc, exc = _listing_exclusions(ce)
   tmp_handled = any('ckpt_tmp_path' in astu.src(n) for n in astu.body_walk(ce.node) if isinstance(n, ast.If))
-  R.judge(len(inc) >= 1 and tmp_handled, "f'*{MP_ARRAY_POSTFIX}'" in exc and tmp_handled, key_of(ce, 'overwrite check ignores array dirs and tolerates a leftover tmp file'), ce,
+  R.judge(len(inc) >= 1 and tmp_handled, _want(mod, "f'*{MP_ARRAY_POSTFIX}'") in exc and tmp_handled, key_of(ce, 'overwrite check ignores array dirs and tolerates a leftover tmp file'), ce,
           '_check_overwrite_error must ignore *_gda directories and tolerate a leftover <prefix>tmp as the last entry')
   # the temp name listings hide is the name writers create
   g = mod.func('_get_checkpoint_paths')
